@@ -281,6 +281,19 @@ pub fn main(seed: u64, tier: &str, only: Option<&str>) {
         }
     }
     judge(batch, &prop, &mut stats);
+    // one function per numeric operator without immediates (operands are its parameters, its result
+    // is returned): a slip in one row of an operator table shows as a different result
+    let mut batch = vec![];
+    let mut nops = 0;
+    for (k, (name, wasm)) in crate::opsx::numeric_cases().into_iter().enumerate() {
+        let pass = if prop == "C06" { Pass::Gc } else { Pass::None };
+        if let Ok(c) = prepare(&format!("op-{}", name), &wasm, pass, (seed * 1000 + k as u64) % 1000000007, rounds, gas) {
+            batch.push(c);
+            nops += 1;
+        }
+    }
+    judge(batch, &prop, &mut stats);
+    out::stat("exec.numeric_operators_run_one_by_one", nops);
     out::stat("exec.modules_run", stats.modules / 1);
     out::stat("exec.instantiation_failed", stats.inst_fail);
     out::stat("exec.calls_returned", stats.calls_ok);
